@@ -10,6 +10,11 @@ decidable predicate on the case; witnesses live in corpus/C04/finding_*.json):
   D9   documentation that is not [safe_doc]           -> docs drawn from SAFE_DOCS
   D24  input assigned to a derived cells             -> inputs only on defined cells
   D33  refmode != auto on a non-object reference      -> refmode only on object refs
+  D34  allow_none assigned to a cells that has derived copies (not propagated; C03 domain) -> left None
+  D35  empty documentation of a lambda cells           -> "doc"
+  D36  a reference name defined in two spaces that share a sub space, in an order the reader
+       cannot replay (references are set after all bases)  -> later definition dropped
+  D1   (C03) cells created in a base whose sub already sees the name -> other name
 (see findings.d/C04.txt).  `avoid=False` switches the avoidance off (used to
 look for the defects, never by the check)."""
 import json
@@ -59,7 +64,7 @@ class Gen:
         self.spaces = {}              # tuple(path) -> Sp
         self.order = []
         self.mrefs = {}
-        self.filtered = {"D8": 0, "D9": 0, "D24": 0, "D33": 0, "D34": 0}
+        self.filtered = {"D8": 0, "D9": 0, "D24": 0, "D33": 0, "D34": 0, "D35": 0, "D1": 0, "D36": 0, "D37": 0}
         self.deferred = []
         self.features = set()
 
@@ -99,8 +104,8 @@ class Gen:
         d.update(sp.cells)
         return d
 
-    def visible_refs(self, sp):
-        d = dict(self.mrefs)
+    def visible_refs(self, sp, with_model=True):
+        d = dict(self.mrefs) if with_model else {}
         for b in reversed(self.all_bases(sp)):
             d.update(b.refs)
         d.update(sp.refs)
@@ -149,7 +154,8 @@ class Gen:
             chosen = []
             for _ in range(k):
                 b = self.pick(cands)
-                if b.path not in chosen:
+                rel = [self.spaces[tuple(c)] for c in chosen]
+                if b.path not in chosen and not any(b in self.all_bases(x) or x in self.all_bases(b) for x in rel):
                     chosen.append(b.path)
             if self.chance(0.4):
                 op["bases"] = chosen
@@ -231,7 +237,15 @@ class Gen:
         return d
 
     def gen_cells(self, sp):
-        used = set(sp.cells)
+        used = set(self.visible_cells(sp))      # a derived cells cannot be overridden by new_cells
+        blocked = set()
+        for s2 in self.order:       # D1 (C03): a sub that already sees the name keeps its old definer
+            if sp in self.all_bases(s2):
+                blocked |= set(self.visible_cells(s2))
+        if self.avoid:
+            if any(n in blocked and n not in used for n in CELLS_NAMES):
+                self.filtered["D1"] += 1
+            used |= blocked
         cand = [n for n in CELLS_NAMES if n not in used]
         if not cand:
             return
@@ -258,7 +272,12 @@ class Gen:
         if src.startswith("lambda"):
             self.features.add("lambda_cells")
             if self.chance(0.3):
-                op["doc"] = self.doc()
+                d = self.doc()
+                if d == "" and self.avoid:
+                    # D35: an empty documentation string of a lambda cells is not written (comes back as None)
+                    self.filtered["D35"] += 1
+                    d = "doc"
+                op["doc"] = d
                 self.features.add("lambda_doc")
         else:
             self.features.add("def_cells")
@@ -282,13 +301,6 @@ class Gen:
             if sp.cells and self.chance(0.5):
                 c = self.pick(sorted(sp.cells))
                 return {"t": "obj", "path": sp.path + [c]}, ("cells", sp.path, sp.cells[c][0])
-            if sp.params and self.chance(0.5):
-                args = self.item_args(sp)
-                cs = [c for c in sorted(sp.cells)]
-                self.features.add("ref_to_itemspace")
-                if cs and self.chance(0.5):
-                    return {"t": "obj", "path": sp.path + [["item", args], self.pick(cs)]}, "other"
-                return {"t": "obj", "path": sp.path + [["item", args]]}, "other"
             return {"t": "obj", "path": sp.path}, ("space", sp.path)
         sp = self.pick(self.order)
         self.features.add("mixed_container")
@@ -303,7 +315,12 @@ class Gen:
     def gen_ref(self, sp):
         """sp None -> model level"""
         names = self.mrefs if sp is None else sp.refs
-        cand = [n for n in REF_NAMES if n not in names]
+        taken = set(names)
+        if sp is not None:
+            for s2 in self.order:       # a sub space that already has the name rejects / hides the new one
+                if sp in self.all_bases(s2):
+                    taken |= set(self.visible_refs(s2, False))
+        cand = [n for n in REF_NAMES if n not in taken]
         if not cand:
             return
         name = self.pick(cand)
@@ -311,6 +328,8 @@ class Gen:
         op = {"op": "ref", "owner": [] if sp is None else sp.path, "name": name, "value": val}
         if sp is not None:
             mode = self.pick(["auto", "auto", "absolute", "relative"])
+            if mode == "relative" and val["t"] == "obj" and val["path"][:len(sp.path)] != sp.path and self.chance(0.8):
+                mode = "absolute"       # relative references out of the owner's tree are mostly rejected
             if val["t"] != "obj" or any(isinstance(s, list) for s in val["path"]):
                 if mode != "auto" and self.avoid:
                     # D33: the mode of a non-object reference is not written
@@ -324,6 +343,49 @@ class Gen:
         self.ops.append(op)
         names[name] = kind
 
+    def preorder(self):
+        out = []
+
+        def walk(sp):
+            out.append(sp)
+            for c in sp.children:
+                walk(c)
+        for sp in self.order:
+            if len(sp.path) == 1:
+                walk(sp)
+        return out
+
+    def fix_d37(self):
+        """D37 (C10 domain): an auto/relative reference to a child space (or to something below it) is
+        re-bound in sub spaces to a counterpart that does not exist there (child spaces are not inherited);
+        whether the derived reference ends up null depends on the order of the edits."""
+        for o in self.ops:
+            if o["op"] == "ref" and o["owner"] and o["value"]["t"] == "obj" and o.get("refmode") != "absolute":
+                sp = self.spaces[tuple(o["owner"])]
+                tp = o["value"]["path"]
+                inside = tp[:len(sp.path)] == sp.path and (len(tp) > len(sp.path) + 1 or tuple(tp) in self.spaces) and tp != sp.path
+                if inside and self.has_subs(sp):
+                    self.filtered["D37"] += 1
+                    o["refmode"] = "absolute"
+                    o.pop("how", None)
+
+    def drop_d36(self):
+        """D36: the reader sets references after all bases, space by space in tree order; creating
+        reference N in X is refused when X does not have N yet but one of its sub spaces does."""
+        seen = {tuple(sp.path): set() for sp in self.order}
+        for sp in self.preorder():
+            subs = [s2 for s2 in self.order if sp in self.all_bases(s2)]
+            for n in list(sp.refs):
+                key = tuple(sp.path)
+                if n not in seen[key] and any(n in seen[tuple(y.path)] for y in subs):
+                    self.filtered["D36"] += 1
+                    self.ops = [o for o in self.ops if not (o["op"] == "ref" and o["owner"] == sp.path and o["name"] == n)]
+                    del sp.refs[n]
+                    continue
+                seen[key].add(n)
+                for y in subs:
+                    seen[tuple(y.path)].add(n)
+
     # -- inputs ---------------------------------------------------------
     def gen_input_value(self):
         if self.chance(0.8):
@@ -334,7 +396,7 @@ class Gen:
         ks = []
         for _ in range(npar):
             r = self.rng.random()
-            ks.append(self.rng.randrange(0, 6) if r < 0.8 else self.pick(["a", "key", [1, 2], -3, 2 ** 66]))
+            ks.append(self.rng.randrange(0, 6) if r < 0.8 else self.pick(["a", "key", -3, 2 ** 66, "S.foo", 1.5, True, None]))
         return ks
 
     def gen_input(self, sp):
@@ -419,6 +481,9 @@ class Gen:
         for _ in range(r.randrange(0, 4)):
             if psp:
                 self.gen_item_input(self.pick(psp))
+        if self.avoid:
+            self.drop_d36()
+            self.fix_d37()
         if self.chance(0.3) and self.order:
             self.ops.append({"op": "setdoc", "target": self.pick(self.order).path, "doc": self.doc()})
         # probes
@@ -448,3 +513,12 @@ def gen_case(rng, cid, avoid=True, big=False):
 
 def canonical_key(case):
     return json.dumps([case["ops"], case["name"]], sort_keys=True)
+
+
+DOC_ALPHABET = ['"', '"', '"', "\\", "a", "b", " ", "\n", "'", "n", "x", "0", "é", "\t", "#", "{", "u", "N"]
+
+
+def random_doc(rng):
+    """documentation-like text biased towards quotes and backslashes (Serial/Lexer.v tie)"""
+    n = rng.randrange(0, 9)
+    return "".join(rng.choice(DOC_ALPHABET) for _ in range(n))
